@@ -3,6 +3,7 @@ package props
 import (
 	"fmt"
 	"math"
+	"runtime"
 	"testing"
 
 	rn "github.com/Trisia/randomness"
@@ -18,6 +19,7 @@ import (
 type c05Case struct {
 	Seq   gen.Seq `json:"seq"`
 	Bytes bool    `json:"bytes,omitempty"`
+	Procs int     `json:"gomaxprocs,omitempty"` // the result must not depend on the number of processors (incl. counts that are not powers of two)
 }
 
 func dftPQ(n, n1 int) (float64, float64) {
@@ -49,6 +51,11 @@ func checkC05(c c05Case) (Outcome, error) {
 		cls = append(cls, "n<=2^21")
 	default:
 		cls = append(cls, "n>2^21")
+	}
+	if c.Procs > 0 {
+		old := runtime.GOMAXPROCS(c.Procs)
+		defer runtime.GOMAXPROCS(old)
+		cls = append(cls, "gomaxprocs:"+itoa(c.Procs))
 	}
 	var gp, gq float64
 	if c.Bytes && n%8 == 0 {
@@ -112,7 +119,7 @@ func genC05(t *rapid.T) c05Case {
 		n = rapid.IntRange(65, 4096).Draw(t, "n")
 	}
 	fams := []string{"explicit", "uniform", "uniform", "biased", "constant", "alternating", "periodic", "tone", "tone", "markov", "sparse", "balanced", "transition"}
-	return c05Case{Seq: gen.DrawSeq(t, n, fams), Bytes: rapid.Bool().Draw(t, "bytes")}
+	return c05Case{Seq: gen.DrawSeq(t, n, fams), Bytes: rapid.Bool().Draw(t, "bytes"), Procs: rapid.SampledFrom([]int{0, 0, 1, 2, 3, 5, 6, 7, 12, 16}).Draw(t, "gomaxprocs")}
 }
 
 func TestC05(t *testing.T) { runProp(t, "C05", genC05, checkC05) }
@@ -130,7 +137,8 @@ func TestC05Sweep(t *testing.T) {
 	if thorough() {
 		big = append(big, 1<<19+1, 1<<20)
 	}
-	for _, n := range big {
+	for i, n := range big {
+		cases = append(cases, c05Case{Seq: gen.Seq{Family: "uniform", N: n, Seed: uint64(n)}, Procs: []int{3, 5, 6, 7, 12}[i%5]})
 		cases = append(cases, c05Case{Seq: gen.Seq{Family: "uniform", N: n, Seed: uint64(n)}})
 		cases = append(cases, c05Case{Seq: gen.Seq{Family: "tone", N: n, A: n / 7}})
 	}
